@@ -11,6 +11,7 @@ import (
 	typesparams "github.com/cosmos/cosmos-sdk/x/params/types"
 	canineglobaltestutil "github.com/jackalLabs/canine-chain/v4/testutil"
 	moduletestutil "github.com/jackalLabs/canine-chain/v4/types/module/testutil"
+	notifmodule "github.com/jackalLabs/canine-chain/v4/x/notifications"
 	"github.com/jackalLabs/canine-chain/v4/x/notifications/keeper"
 	types "github.com/jackalLabs/canine-chain/v4/x/notifications/types"
 	tmproto "github.com/tendermint/tendermint/proto/tendermint/types"
@@ -72,4 +73,21 @@ func TestVerifScenario_C18_same_block_overwrite(t *testing.T) {
 		return
 	}
 	fmt.Println("SCENARIO-OK both notifications listed")
+}
+
+// C19: exporting and importing must preserve the block lists.
+func TestVerifScenario_C19_block_list_not_in_genesis(t *testing.T) {
+	k, ctx := nSetup(t)
+	owner, spammer := nAddr(1), nAddr(2)
+	k.SetBlock(ctx, types.Block{Address: owner.String(), BlockedAddress: spammer.String()})
+	exported := notifmodule.ExportGenesis(ctx, *k)
+	k2, ctx2 := nSetup(t)
+	notifmodule.InitGenesis(ctx2, *k2, *exported)
+	before := k.IsBlocked(ctx, owner.String(), spammer.String())
+	after := k2.IsBlocked(ctx2, owner.String(), spammer.String())
+	if before && !after {
+		fmt.Printf("SCENARIO-VIOLATION the sender was blocked before export (%v) and is no longer blocked after import (%v); the export lists %d 'notification(s)' decoded from the block entry\n", before, after, len(exported.Notifications))
+		return
+	}
+	fmt.Printf("SCENARIO-OK blocked before=%v after=%v\n", before, after)
 }
